@@ -849,6 +849,69 @@ Proof.
   exact (proj1 (versym_section_exact le is64 _ _ _ _ Hv)).
 Qed.
 
+(* ====================== the layout predicates are monotone in the image ====================== *)
+(* whatever is appended to an image, every record and string stays where it was: a section certified on a
+   prefix of a file is certified on the file (used to certify files whose tail is megabytes of section headers) *)
+Lemma placed_any_tail img t off bs : placed img off bs = true -> placed (img ++ t) off bs = true.
+Proof.
+  intros H. apply placed_skipn in H. destruct H as [H0 [tail Ht]].
+  unfold placed. rewrite from_off_eq, skipn_app, Ht, <- app_assoc, firstn_app, firstn_all, Nat.sub_diag.
+  cbn [firstn]. rewrite app_nil_r, bytes_eqb_refl. lia.
+Qed.
+
+Lemma str_at_any_tail img t off s : str_at img off s = true -> str_at (img ++ t) off s = true.
+Proof.
+  unfold str_at. rewrite !andb_true_iff. intros [Hn Hp]. split; [exact Hn|apply placed_any_tail; exact Hp].
+Qed.
+
+Lemma verdaux_chain_any_tail le img t so : forall auxs off,
+  verdaux_chain le img so off auxs = true -> verdaux_chain le (img ++ t) so off auxs = true.
+Proof.
+  induction auxs as [|a r IH]; intros off H; [reflexivity|]. cbn [verdaux_chain] in H |- *.
+  rewrite !andb_true_iff in *. intuition auto using placed_any_tail, str_at_any_tail.
+Qed.
+Lemma vernaux_chain_any_tail le img t so : forall auxs off,
+  vernaux_chain le img so off auxs = true -> vernaux_chain le (img ++ t) so off auxs = true.
+Proof.
+  induction auxs as [|a r IH]; intros off H; [reflexivity|]. cbn [vernaux_chain] in H |- *.
+  rewrite !andb_true_iff in *. intuition auto using placed_any_tail, str_at_any_tail.
+Qed.
+Lemma verdef_chain_any_tail le img t so : forall defs off,
+  verdef_chain le img so off defs = true -> verdef_chain le (img ++ t) so off defs = true.
+Proof.
+  induction defs as [|d r IH]; intros off H; [reflexivity|]. cbn [verdef_chain] in H |- *.
+  rewrite !andb_true_iff in *. intuition auto using placed_any_tail, verdaux_chain_any_tail.
+Qed.
+Lemma verneed_chain_any_tail le img t so : forall needs off,
+  verneed_chain le img so off needs = true -> verneed_chain le (img ++ t) so off needs = true.
+Proof.
+  induction needs as [|d r IH]; intros off H; [reflexivity|]. cbn [verneed_chain] in H |- *.
+  rewrite !andb_true_iff in *. intuition auto using placed_any_tail, str_at_any_tail, vernaux_chain_any_tail.
+Qed.
+Lemma versym_table_any_tail le is64 img t a b c d e : forall entries i,
+  versym_table le is64 img a b c d e i entries = true -> versym_table le is64 (img ++ t) a b c d e i entries = true.
+Proof.
+  induction entries as [|[v s] r IH]; intros i H; [reflexivity|]. cbn [versym_table] in H |- *.
+  rewrite !andb_true_iff in *. intuition auto using placed_any_tail, str_at_any_tail.
+Qed.
+
+Theorem section_wf_any_tail le is64 img t shdrs :
+  (forall n defs, verdef_section_wf le img shdrs n defs = true -> verdef_section_wf le (img ++ t) shdrs n defs = true)
+  /\ (forall n needs, verneed_section_wf le img shdrs n needs = true -> verneed_section_wf le (img ++ t) shdrs n needs = true)
+  /\ (forall n entries, versym_section_wf le is64 img shdrs n entries = true ->
+                        versym_section_wf le is64 (img ++ t) shdrs n entries = true).
+Proof.
+  split; [|split]; intros n x.
+  - unfold verdef_section_wf. destruct (linked shdrs n SHT_GNU_verdef [SHT_STRTAB]) as [[h st]|]; [|discriminate].
+    rewrite !andb_true_iff. intuition auto using verdef_chain_any_tail.
+  - unfold verneed_section_wf. destruct (linked shdrs n SHT_GNU_verneed [SHT_STRTAB]) as [[h st]|]; [|discriminate].
+    rewrite !andb_true_iff. intuition auto using verneed_chain_any_tail.
+  - unfold versym_section_wf.
+    destruct (linked shdrs n SHT_GNU_versym [SHT_SYMTAB; SHT_DYNSYM]) as [[h sy]|]; [|discriminate].
+    destruct (nth_error shdrs (Z.to_nat (sh_link sy))) as [st|]; [|discriminate].
+    rewrite !andb_true_iff. intuition auto using versym_table_any_tail.
+Qed.
+
 (* the six record layouts this property reads, as regenerated from the live code, are the standard ones *)
 Lemma layouts_standard le is64 :
   gen_Elf_Verdef le is64 = spec_Elf_Verdef le /\ gen_Elf_Verdaux le is64 = spec_Elf_Verdaux le /\
